@@ -157,7 +157,6 @@ def uses_open_code(data, direction):
     off, first = 0, True
     try:
         while off < len(data) or first:
-            hl = 12 if first else 8
             if len(data) - off >= 3 and not (data[off + 2] >> 7) and ((data[off + 2] >> 3) & 0xf) in OPEN_CODES:
                 return True
             _, off = dec_pdu(direction, data, off, first, True)
